@@ -29,7 +29,18 @@ def model_to_text(model, limit=60):
     return lines
 
 
-def check(world, ob, timeout_ms=5000, depth=2, use_cvc5=True, cvc5_timeout_s=10, seeds=(0,), quick_only=False):
+def timed_check(solver, timeout_ms):
+    """solver.check() under z3's own timeout.  (Interrupting the context from a timer thread was tried and corrupted the
+    heap of the worker process; z3's sequence solver may overrun its timeout, which is why string-heavy contracts ask
+    cvc5 first.)"""
+    solver.set('timeout', int(timeout_ms))
+    try:
+        return solver.check()
+    except z3.Z3Exception:
+        return z3.unknown
+
+
+def check(world, ob, timeout_ms=5000, depth=2, use_cvc5=True, cvc5_timeout_s=10, seeds=(0,), quick_only=False, prefer_cvc5=False):
     """Returns dict(result=proved|refuted|unknown, backend, time, model)."""
     t0 = time.time()
     if z3.is_true(ob.goal):
@@ -51,9 +62,25 @@ def check(world, ob, timeout_ms=5000, depth=2, use_cvc5=True, cvc5_timeout_s=10,
     plan = [(min(timeout_ms, 3000), 0), (min(timeout_ms, 6000), 7), (timeout_ms, 0), (min(timeout_ms, 15000), 13)]
     if quick_only:
         plan = plan[:1]
-    for tmo, seed in plan:
+    tried_cvc5 = False
+    for k_, (tmo, seed) in enumerate(plan):
+        if k_ == (0 if prefer_cvc5 else 1) and not tried_cvc5 and use_cvc5 and not quick_only and os.path.exists(CVC5):
+            if k_ == 0:
+                s = z3.Solver()
+                for a in base:
+                    s.add(a)
+                for a in axioms:
+                    s.add(a)
+            # z3's sequence/string solver is the usual reason for a first-round timeout; cvc5 decides many of those in milliseconds
+            tried_cvc5 = True
+            try:
+                r5 = run_cvc5(s.to_smt2(), min(cvc5_timeout_s, max(2, timeout_ms / 1000)))
+            except Exception:
+                r5 = 'unknown'
+            if r5 == 'unsat':
+                res, backend = 'proved', 'cvc5-1.0.3'
+                break
         s = z3.Solver()
-        s.set('timeout', tmo)
         if seed:
             s.set('random_seed', seed)
             s.set('smt.random_seed', seed)
@@ -61,7 +88,7 @@ def check(world, ob, timeout_ms=5000, depth=2, use_cvc5=True, cvc5_timeout_s=10,
             s.add(a)
         for a in axioms:
             s.add(a)
-        r = s.check()
+        r = timed_check(s, tmo)
         if r == z3.unsat:
             res, backend = 'proved', f'z3-{z3.get_version_string()}'
             break
@@ -77,12 +104,11 @@ def check(world, ob, timeout_ms=5000, depth=2, use_cvc5=True, cvc5_timeout_s=10,
         for d in (1, 0):
             ax2 = world.close(base, depth=d) if d else []
             s2 = z3.Solver()
-            s2.set('timeout', min(timeout_ms, 4000))
             for a in base:
                 s2.add(a)
             for a in ax2:
                 s2.add(a)
-            r2 = s2.check()
+            r2 = timed_check(s2, min(timeout_ms, 4000))
             if r2 == z3.unsat:
                 res, backend, depth_used = 'proved', f'z3-{z3.get_version_string()}', d
                 break
@@ -105,7 +131,7 @@ def check(world, ob, timeout_ms=5000, depth=2, use_cvc5=True, cvc5_timeout_s=10,
                     model = m2
                     model_lines = [f'(counter-model found at unfolding depth {d} and validated against all {len(axioms)} axioms of depth {depth})'] + model_to_text(model)
                     break
-    if res == 'unknown' and use_cvc5 and os.path.exists(CVC5):
+    if res == 'unknown' and use_cvc5 and not tried_cvc5 and os.path.exists(CVC5):
         try:
             smt2 = s.to_smt2()
             r = run_cvc5(smt2, cvc5_timeout_s)
